@@ -15,6 +15,7 @@
   harness + round-trip oracle on the real code, but are not covered by these theorems.
 -/
 import TypedpyModel.Lemmas.RoundTrip
+import TypedpyModel.Lemmas.RoundTripX
 namespace Typedpy.C05
 open Typedpy
 
@@ -117,12 +118,21 @@ theorem optional_survives (O : Oracles) (opts : DeserOpts) (g : FieldDecl) (v : 
     (hn : v.isNone = false) (hc : conforms O g v = true) (hf : inFrag O g v = true) :
     ∃ j, ser O (.anyOf [.noneF, g]) v = .ok j ∧ isJson j = true
       ∧ deser O opts false (.anyOf [.noneF, g]) j = .ok v := by
-  have hf' : inFrag O (.anyOf [.noneF, g]) v = true := by
-    simp [inFrag, inFragOpt, isNoneDecl, hn, hc, hf]
-  have hc' : conforms O (.anyOf [.noneF, g]) v = true := by
-    simp [conforms, conformsAny, hc]
-  rcases round_trip O opts _ v hc' hf' with ⟨j, h1, h2, _, h4, _⟩
-  exact ⟨j, h1, h2, h4⟩
+  rcases round_trip O opts g v hc hf with ⟨j, h1, h2, h3, h4, h5⟩
+  rcases rt_optional O opts g v j hn (shallowOk_of_frag O g v hc hf) h1 h2 h3 h4 h5 with ⟨j', a, b, _, d, _⟩
+  exact ⟨j', a, b, d⟩
+
+/-- **AnyOf over distinguishable options** (`Optional[X]` in either order, `AnyOf[A, B, None]`, unions of
+    scalars with collections or classes, at any depth since `inFrag` carries the same clause): the value is
+    serialized by the option it belongs to, the document is read back by that option and the constructor
+    stores it unchanged — provided every option listed before it fails its shallow check and its
+    validation on the value and cannot accept a document of the JSON type produced (`inFragAny`) -/
+theorem anyof_round_trip_partial (O : Oracles) (opts : DeserOpts) (fs : List FieldDecl) (v : PyVal)
+    (hf : inFragAny O fs v = true) :
+    ∃ j, ser O (.anyOf fs) v = .ok j ∧ isJson j = true
+      ∧ deser O opts false (.anyOf fs) j = .ok v ∧ validate O (.anyOf fs) v = .ok v := by
+  rcases round_trip_any O opts fs v hf with ⟨j, h1, h2, _, h4, h5⟩
+  exact ⟨j, by simpa [ser] using h1, h2, by simp [deser, h4], by simpa [validate] using h5⟩
 
 /-! ### falsy values survive; non-vacuity -/
 
@@ -192,11 +202,281 @@ theorem set_map_round_trip_example :
         | .error _ => false) = true := by
   decide
 
+/-- `U(f: AnyOf[Enum[Color], Integer, None], xs: Array[Optional[String]], m: AnyOf[Array[Integer], String])`:
+    the enum member is serialized by the FIRST option although two non-None options and None are listed, a
+    None element of the array survives, and a string is told from an array -/
+def exUnion : FieldDecl :=
+  .struct { name := "U", required := [], accepts := ["U"], addl := false }
+    [("f", .anyOf [.enumCls "Color" ["RED", "BLUE"], .integer {}, .noneF]),
+     ("xs", .seqOf .list (.anyOf [.string none none none, .noneF]) {}),
+     ("m", .anyOf [.seqOf .list (.integer {}) {}, .string none none none])] []
+def exUnionInst : PyVal :=
+  .inst "U" [("f", .enumv "Color" "RED"), ("xs", .list [.str "a", .none]), ("m", .str "")]
+
+theorem anyof_round_trip_example :
+    inFrag exO exUnion exUnionInst = true
+    ∧ (match serialize exO exUnion exUnionInst with
+        | .ok (.dict [(.str "f", .str "RED"), (.str "xs", .list [.str "a", .none]), (.str "m", .str "")]) => true
+        | _ => false) = true
+    ∧ (match serialize exO exUnion exUnionInst with
+        | .ok j => (match deserialize exO {} exUnion j with
+            | .ok (.inst "U" [("f", .enumv "Color" "RED"), ("xs", .list [.str "a", .none]), ("m", .str "")]) => true
+            | _ => false)
+        | .error _ => false) = true
+    -- an AnyOf of indistinguishable options is outside the fragment: a set under AnyOf[Array, Set]
+    ∧ inFragAny exO [.seqOf .list (.integer {}) {}, .setOf false (.integer {}) {}] (.set false [.int 1]) = false := by
+  decide
+
 theorem class_round_trip_example :
     inFrag exO exOuter exInst = true
     ∧ (match serialize exO exOuter exInst with
         | .ok j => isJson j && (match deserialize exO {} exOuter j with
             | .ok (.inst "Outer" [("n", .inst "Inner" [("a", .int 0)]), ("tag", .str ""), ("xs", .list [])]) => true
+            | _ => false)
+        | .error _ => false) = true := by
+  decide
+
+/-! ### additional properties: undeclared attributes survive with keep_undefined -/
+
+/-- undeclared attributes that survive: names that are not fields, values that are non-None JSON scalars -/
+def plainExtras (names : List String) (ex : List (String × PyVal)) : Bool :=
+  ex.all fun a => !names.contains a.1 && !a.2.isNone && jsonScalar a.2
+
+theorem c05_mapE_append {α β} (g : α → R β) : ∀ (xs ys : List α) (as bs : List β),
+    mapE g xs = .ok as → mapE g ys = .ok bs → mapE g (xs ++ ys) = .ok (as ++ bs)
+  | [], ys, as, bs, h1, h2 => by simp [mapE] at h1; subst h1; simpa using h2
+  | x :: xs, ys, as, bs, h1, h2 => by
+    simp only [mapE] at h1
+    rcases bindE_eq_ok h1 with ⟨y, hy, h1'⟩
+    rcases bindE_eq_ok h1' with ⟨zs, hzs, h1''⟩
+    simp at h1''; subst h1''
+    have := c05_mapE_append g xs ys zs bs hzs h2
+    simp [mapE, hy, this]
+
+theorem c05_serField_extra (O : Oracles) (k : String) (v : PyVal) :
+    ∀ fields : List (String × FieldDecl), (fields.map (·.1)).contains k = false →
+      serField O fields k v = serAny v
+  | [], _ => rfl
+  | (n, f) :: rest, h => by
+    simp only [List.map_cons, List.contains_cons, Bool.or_eq_false_iff] at h
+    simp only [serField, h.1, Bool.false_eq_true, if_false]
+    exact c05_serField_extra O k v rest h.2
+
+theorem c05_serAny_scalar (v : PyVal) (h : jsonScalar v = true) : serAny v = .ok v ∧ isJson v = true := by
+  cases v <;> simp [jsonScalar] at h <;> simp [serAny, isJson]
+
+theorem c05_ser_extras (O : Oracles) (fields : List (String × FieldDecl)) :
+    ∀ ex : List (String × PyVal), plainExtras (fields.map (·.1)) ex = true →
+      mapE (fun (a : String × PyVal) =>
+        bindE (serField O fields a.1 a.2) fun j => .ok (PyVal.str a.1, j)) ex = .ok (ex.map rt_toPair)
+      ∧ isJsonPairs (ex.map rt_toPair) = true
+  | [], _ => ⟨rfl, rfl⟩
+  | a :: ex, h => by
+    simp only [plainExtras, List.all_cons, and_true_iff, Bool.not_eq_true'] at h
+    obtain ⟨⟨⟨hn, _⟩, hs⟩, hrest⟩ := h
+    rcases c05_ser_extras O fields ex (by simpa [plainExtras] using hrest) with ⟨g1, g2⟩
+    rcases c05_serAny_scalar a.2 hs with ⟨s1, s2⟩
+    constructor
+    · simp only [mapE, g1, c05_serField_extra O a.1 a.2 fields hn, s1]
+      simp [rt_toPair]
+    · simp [isJsonPairs, isJsonKey, rt_toPair, s2]; simpa [rt_toPair] using g2
+
+theorem c05_isJsonPairs_append : ∀ (xs ys : List (PyVal × PyVal)),
+    isJsonPairs xs = true → isJsonPairs ys = true → isJsonPairs (xs ++ ys) = true
+  | [], _, _, h => by simpa using h
+  | (k, v) :: xs, ys, h1, h2 => by
+    simp only [isJsonPairs, and_true_iff] at h1
+    simp only [List.cons_append, isJsonPairs, and_true_iff]
+    exact ⟨h1.1, c05_isJsonPairs_append xs ys h1.2 h2⟩
+
+theorem c05_lookup_skip {α} (m : String) : ∀ (ex rest : List (String × α)),
+    (∀ a ∈ ex, a.1 ≠ m) → lookup m (ex ++ rest) = lookup m rest
+  | [], _, _ => rfl
+  | (k, v) :: ex, rest, h => by
+    have hk : (m == k) = false := by
+      have := h (k, v) (by simp)
+      simpa using fun e => this e.symm
+    simp only [List.cons_append, lookup, hk, Bool.false_eq_true, if_false]
+    exact c05_lookup_skip m ex rest (fun a ha => h a (by simp [ha]))
+
+/-- **C05 with additional properties**: a class that allows additional properties, an instance of the
+    fragment that also carries undeclared attributes holding non-None JSON scalars (they come first in the
+    instance, as the constructor stores them): with `keep_undefined` on, `Deserializer(cls).deserialize(
+    Serializer(x).serialize())` gives back exactly `x`, the undeclared attributes included -/
+theorem class_round_trip_extras_partial (O : Oracles) (opts : DeserOpts) (c : ClassOpts)
+    (fields : List (String × FieldDecl)) (defaults ex attrs : List (String × PyVal))
+    (hadd : c.addl = true) (hku : opts.keepUndefined = true)
+    (hex : plainExtras (fields.map (·.1)) ex = true)
+    (hf : inFrag O (.struct c fields defaults) (.inst c.name attrs) = true) :
+    ∃ j, serialize O (.struct c fields defaults) (.inst c.name (ex ++ attrs)) = .ok j ∧ isJson j = true
+      ∧ deserialize O opts (.struct c fields defaults) j = .ok (.inst c.name (ex ++ attrs)) := by
+  simp only [inFrag, and_true_iff] at hf
+  obtain ⟨⟨⟨hinl, hacc⟩, hnd⟩, ⟨_, hreq⟩, hcan⟩ := hf
+  have hinl' : c.inline = false := by simpa using hinl
+  have hnd' : (fields.map (·.1)).Nodup := by simpa using hnd
+  rcases rt_fields O opts c defaults fields attrs hnd' hcan with ⟨kw, g1, g2, g3, g4, g5⟩
+  have hnames := canonAttrs_names O c defaults fields attrs hcan
+  have hnn := canonAttrs_nonNone O c defaults fields attrs hcan
+  rcases c05_ser_extras O fields ex hex with ⟨e1, e2⟩
+  have hexall := List.all_eq_true.mp hex
+  have hexn : ∀ a ∈ ex, (fields.map (·.1)).contains a.1 = false ∧ a.2.isNone = false := by
+    intro a ha
+    have := hexall a ha
+    simp only [and_true_iff, Bool.not_eq_true'] at this
+    exact ⟨this.1.1, this.1.2⟩
+  -- names of extras differ from every field name
+  have hdisj : ∀ m ∈ fields.map (·.1), ∀ a ∈ ex, a.1 ≠ m := by
+    intro m hm a ha hEq
+    have := (hexn a ha).1
+    rw [hEq] at this
+    have hc : (fields.map (·.1)).contains m = true := by simpa using hm
+    rw [hc] at this; cases this
+  have hkwnames : ∀ a ∈ kw, a.1 ∈ fields.map (·.1) := by
+    intro a ha
+    have : a.1 ∈ kw.map (·.1) := List.mem_map_of_mem ha
+    rw [g3] at this
+    rcases List.mem_map.mp this with ⟨b, hb, hab⟩
+    rw [← hab]; exact hnames b hb
+  have hfil : (ex ++ attrs).filter (fun a => !a.2.isNone) = ex ++ attrs :=
+    List.filter_eq_self.mpr (fun a ha => by
+      rcases List.mem_append.mp ha with h | h
+      · simp [(hexn a h).2]
+      · simp [hnn a h])
+  have hser := c05_mapE_append (fun (a : String × PyVal) =>
+      bindE (serField O fields a.1 a.2) fun j => .ok (PyVal.str a.1, j)) ex attrs _ _ e1 g1
+  have hpairs : ex.map rt_toPair ++ kw.map rt_toPair = (ex ++ kw).map rt_toPair := by simp
+  have hjs : isJsonPairs ((ex ++ kw).map rt_toPair) = true := by
+    rw [← hpairs]; exact c05_isJsonPairs_append _ _ e2 g2
+  refine ⟨.dict ((ex ++ kw).map rt_toPair), ?_, by simp only [isJson]; exact hjs, ?_⟩
+  · simp only [serialize, ser, sInst, beq_self_eq_true, Bool.true_or, Bool.not_true, Bool.false_eq_true,
+      if_false, hfil, hser, bindE_ok, hpairs]
+  · -- deserialization
+    have hdf : deserFields O opts c (ex ++ kw) fields false = .ok attrs := by
+      rw [deserFields_congr O opts c (ex ++ kw) kw fields false
+        (fun m hm => c05_lookup_skip m ex kw (hdisj m hm))]
+      exact g4
+    have hde : deserExtras opts c (fields.map (·.1)) (ex ++ kw) = ex := by
+      unfold deserExtras
+      rw [List.filter_append]
+      have h1 : ex.filter (fun a => !(fields.map (·.1)).contains a.1 && opts.keepUndefined
+          && (c.addl || !opts.ignoreInvalidAddl)) = ex :=
+        List.filter_eq_self.mpr (fun a ha => by rw [(hexn a ha).1, hku, hadd]; simp)
+      have h2 : kw.filter (fun a => !(fields.map (·.1)).contains a.1 && opts.keepUndefined
+          && (c.addl || !opts.ignoreInvalidAddl)) = [] :=
+        List.filter_eq_nil_iff.mpr (fun a ha => by simp [hkwnames a ha])
+      rw [h1, h2]; simp
+    have hvf : validateFields O c defaults (ex ++ attrs) fields = .ok attrs := by
+      rw [validateFields_congr O c defaults (ex ++ attrs) attrs fields
+        (fun m hm => c05_lookup_skip m ex attrs (hdisj m hm))]
+      exact g5
+    have hxo : extrasOf c (fields.map (·.1)) (ex ++ attrs) = ex := by
+      unfold extrasOf
+      rw [List.filter_append]
+      have h1 : ex.filter (fun a => !(fields.map (·.1)).contains a.1 && !(a.2.isNone && c.ignoreNone)) = ex :=
+        List.filter_eq_self.mpr (fun a ha => by rw [(hexn a ha).1, (hexn a ha).2]; simp)
+      have h2 : attrs.filter (fun a => !(fields.map (·.1)).contains a.1 && !(a.2.isNone && c.ignoreNone)) = [] :=
+        List.filter_eq_nil_iff.mpr (fun a ha => by simp [hnames a ha])
+      rw [h1, h2]; simp
+    have hbind : bindOk c (fields.map (·.1)) (ex ++ attrs) = true := by
+      unfold bindOk
+      simp only [hadd, Bool.not_true, Bool.false_and, Bool.not_false, Bool.and_true, Bool.not_eq_true',
+        List.any_eq_false]
+      intro r hr
+      have := (List.all_eq_true.mp hreq) r hr
+      rw [lookup_append]
+      cases h1 : lookup r ex <;> cases h2 : lookup r attrs <;> simp [h2] at this ⊢
+    have hk : kwOfDict ((ex ++ kw).map rt_toPair) = some (ex ++ kw) := rt_kwOfDict_map _
+    simp only [deserialize, dClassRef, hk]
+    simp [hdf, hde, vConstruct, hbind, hvf, hxo]
+
+/-- non-vacuity: an open class with an undeclared attribute whose value is falsy -/
+theorem class_round_trip_extras_example :
+    plainExtras ["a", "b"] [("zz", .int 0), ("note", .str "")] = true
+    ∧ inFrag exO exInner (.inst "Inner" [("a", .int 5)]) = true
+    ∧ (match serialize exO exInner (.inst "Inner" [("zz", .int 0), ("note", .str ""), ("a", .int 5)]) with
+        | .ok j => isJson j && (match deserialize exO { keepUndefined := true } exInner j with
+            | .ok (.inst "Inner" [("zz", .int 0), ("note", .str ""), ("a", .int 5)]) => true
+            | _ => false)
+        | .error _ => false) = true
+    -- with keep_undefined off the undeclared attributes are dropped: the hypothesis is needed
+    ∧ (match serialize exO exInner (.inst "Inner" [("zz", .int 0), ("a", .int 5)]) with
+        | .ok j => (match deserialize exO { keepUndefined := false } exInner j with
+            | .ok (.inst "Inner" [("a", .int 5)]) => true
+            | _ => false)
+        | .error _ => false) = true := by
+  decide
+
+
+/-! ### the extension kinds (Sem/SerdeX.lean): DecimalNumber, Enum by value, DateField / DateTime -/
+
+/-- **C05 on the extension kinds (field level)** -/
+theorem xfield_round_trip_partial (XO : XOracles) (opts : DeserOpts) (x : XDecl) (v : PyVal)
+    (hf : xFrag XO x v = true) :
+    ∃ j, serX XO x v = .ok j ∧ isJson j = true
+      ∧ deserX XO opts false x j = .ok v ∧ validateX XO x v = .ok v := by
+  rcases xround_trip XO opts x v hf with ⟨j, h1, h2, _, h4, h5⟩
+  exact ⟨j, h1, h2, h4, h5⟩
+
+theorem xclass_round_trip_partial (XO : XOracles) (opts : DeserOpts) (c : ClassOpts)
+    (fields : List (String × XDecl)) (x : PyVal)
+    (hf : xFrag XO (.struct c fields) x = true) :
+    ∃ j, serializeX XO (.struct c fields) x = .ok j ∧ isJson j = true
+      ∧ deserializeX XO opts (.struct c fields) j = .ok x := by
+  rcases xround_trip XO opts (.struct c fields) x hf with ⟨j, h1, h2, _, h4, _⟩
+  have hj : ∃ r, j = .dict r := by
+    simp only [xFrag, and_true_iff] at hf
+    cases x with
+    | inst n attrs =>
+      simp only [serX, sInst] at h1
+      split at h1
+      · cases h1
+      · rcases bindE_eq_ok h1 with ⟨r, _, hr⟩
+        exact ⟨r, by cases hr; rfl⟩
+    | _ => simp at hf
+  rcases hj with ⟨r, rfl⟩
+  exact ⟨.dict r, h1, h2, by simpa [deserializeX] using h4⟩
+
+/-- the serialized form of a Decimal is `float(d)` and comes back as the Decimal of that float: the
+    round trip returns an equal value exactly when the Decimal is a double (the lossy clause) -/
+theorem decimal_round_trip_lossy (XO : XOracles) (opts : DeserOpts) (o : NumOpts) (q : Q) :
+    serX XO (.decimal o) (.dec q) = .ok (.float (XO.toFloat q))
+    ∧ deserX XO opts false (.decimal o) (.float (XO.toFloat q)) = .ok (.dec (XO.toFloat q)) := by
+  constructor
+  · simp [serX, sDecimal]
+  · simp [deserX, PyVal.isNone, dDecimal, xConvDecimal, PyVal.asNum]
+
+def exXO : XOracles :=
+  { base := exO, toFloat := fun q => q,
+    parse := fun _ _ s => if s == "2020-01-31" then some "date:2020-01-31" else none,
+    format := fun _ _ _ => "2020-01-31",
+    typeOf := fun t => if t == "date:2020-01-31" then "date" else "?" }
+
+def exLevel : XDecl := .enumVal "Level" [("OFF", .int 0), ("LOW", .int 1), ("HIGH", .int 2)] true
+
+/-- `Task(priority: Enum[Level] by value, due: Optional[DateField], amounts: Array[DecimalNumber(min 0)],
+    tags: Map[String, Optional[Enum by value]])` -/
+def exTask : XDecl :=
+  .struct { name := "Task", required := ["priority"], accepts := ["Task"] }
+    [("priority", exLevel), ("due", .opt (.temporal "date" "%Y-%m-%d" false)),
+     ("amounts", .seqOf .list (.decimal { min := some ⟨0, 1⟩ })),
+     ("tags", .mapStr (.opt exLevel))]
+def exTaskInst : PyVal :=
+  .inst "Task" [("priority", .enumv "Level" "OFF"), ("due", .opaque "date:2020-01-31"),
+                ("amounts", .list [.dec ⟨0, 1⟩, .dec ⟨3, 2⟩]),
+                ("tags", .dict [(.str "a", .enumv "Level" "OFF"), (.str "", .none)])]
+
+/-- non-vacuity: a falsy member (IntEnum 0), a date, Decimals and an Optional enum inside a Map -/
+theorem xclass_round_trip_example :
+    xFrag exXO exTask exTaskInst = true
+    ∧ (match serializeX exXO exTask exTaskInst with
+        | .ok (.dict [(.str "priority", .int 0), (.str "due", .str "2020-01-31"),
+                      (.str "amounts", .list [.float ⟨0, 1⟩, .float ⟨3, 2⟩]),
+                      (.str "tags", .dict [(.str "a", .int 0), (.str "", .none)])]) => true
+        | _ => false) = true
+    ∧ (match serializeX exXO exTask exTaskInst with
+        | .ok j => (match deserializeX exXO {} exTask j with
+            | .ok (.inst "Task" [("priority", .enumv "Level" "OFF"), ("due", .opaque "date:2020-01-31"),
+                ("amounts", .list [.dec _, .dec _]), ("tags", .dict [(.str "a", .enumv "Level" "OFF"), (.str "", .none)])]) => true
             | _ => false)
         | .error _ => false) = true := by
   decide
